@@ -1784,6 +1784,23 @@ DLLIMPORT int cfg_parse_fp(cfg_t *cfg, FILE *fp)
 	return CFG_SUCCESS;
 }
 
+/* fopen() a configuration file for reading; the scanner cannot read a directory */
+FILE *cfg_fopen_file(const char *filename)
+{
+	FILE *fp = fopen(filename, "r");
+#ifdef HAVE_SYS_STAT_H
+	struct stat st;
+
+	if (fp && fstat(fileno(fp), &st) == 0 && S_ISDIR(st.st_mode)) {
+		fclose(fp);
+		errno = EISDIR;
+		return NULL;
+	}
+#endif
+
+	return fp;
+}
+
 static char *cfg_make_fullpath(const char *dir, const char *file)
 {
 	int np;
@@ -1873,7 +1890,7 @@ DLLIMPORT int cfg_parse(cfg_t *cfg, const char *filename)
 	free(cfg->filename);
 	cfg->filename = fn;
 
-	fp = fopen(cfg->filename, "r");
+	fp = cfg_fopen_file(cfg->filename);
 	if (!fp)
 		return CFG_FILE_ERROR;
 
